@@ -300,6 +300,9 @@ func (p *PX) term(v ssa.Value, fr *pxFrame, st *pxState) *Term {
 				return p.term(ms.Len, fr, st)
 			}
 			a := p.term(c.Args[0], fr, st)
+			if ml, ok := st.vals["mklen:"+a.key]; ok && p.views {
+				return ml // a slice made on this path: the length it was made with
+			}
 			return p.lenTerm(a, v.Type())
 		}
 		if b, ok := c.Value.(*ssa.Builtin); ok && b.Name() == "append" && len(c.Args) == 2 && !isByteSlice(v.Type()) {
@@ -485,6 +488,11 @@ func (p *PX) instrs(fr *pxFrame, b *ssa.BasicBlock, from int, st *pxState, k pxC
 			stepIn = p.hooks.onInstr(fr, in, st)
 		}
 		switch x := in.(type) {
+		case *ssa.MakeSlice:
+			if p.views {
+				// the length the slice is made with, as of now
+				st.vals["mklen:"+p.term(x, fr, st).key] = p.term(x.Len, fr, st)
+			}
 		case *ssa.UnOp:
 			if x.Op == token.MUL {
 				// memory is read now, not when the register is used
